@@ -658,3 +658,48 @@ def running_min_ifs(func_node, var, item):
                 (isinstance(b.ops[0], ast.Lt) and src(b.left) == item and src(b.comparators[0]) == var))
         (exact if ok and not n.orelse else inexact).append(n)
     return exact, inexact
+
+
+def waiter_lists(chk, rule, cls, min_fields=1):
+    """Future lists of a class: a method creates a Future, appends it to self.<F> and returns it (somebody awaits it).  Every loop that
+    resolves the waiters of <F> must resolve all of them (only futures already done are skipped, no early exit) and the list is
+    emptied only after they were resolved.  A waiter that is never resolved is a coroutine that sleeps for ever."""
+    fields = {}
+    for m in cls.methods.values():
+        futs = {src(a.targets[0]) for a in walk_local(m.node) if isinstance(a, ast.Assign) and isinstance(a.value, ast.Call) and src(a.value.func).endswith("Future")
+                and isinstance(a.targets[0], ast.Name)}
+        for c in m.calls():
+            if call_attr(c) == "append" and src(c.func.value).startswith("self.") and c.args and src(c.args[0]) in futs and \
+                    any(isinstance(r, ast.Return) and r.value is not None and src(r.value) == src(c.args[0]) for r in walk_local(m.node)):
+                fields.setdefault(src(c.func.value), []).append(m)
+    n_res = 0
+    for fld, makers in sorted(fields.items()):
+        resolvers = []
+        for m in cls.methods.values():
+            cfg = None
+            for lp in [x for x in walk_local(m.node) if isinstance(x, ast.For) and src(x.iter) in (fld, "list(%s)" % fld, "%s[:]" % fld)]:
+                sets = [c for c in ast.walk(lp) if isinstance(c, ast.Call) and call_attr(c) in ("set_result", "set_exception", "cancel") and
+                        isinstance(lp.target, ast.Name) and src(c.func.value) == lp.target.id]
+                if not sets:
+                    continue
+                cfg = cfg or m.cfg()
+                chk.analysed(m)
+                n_res += 1
+                resolvers.append(m)
+                head = [h for h in cfg.nodes if h.kind == "loop" and h.ast is lp][0]
+                node = [x for x in cfg.nodes if x.kind == "stmt" and any(y is sets[0] for y in x.walk())][0]
+                v = lp.target.id
+                exact_selection(chk, rule, "%s.%s wakes every waiter of %s (only futures already done are skipped)" % (cls.name, m.name, fld), m, cfg, node, head,
+                                {("%s.done()" % v, False)}, text="waiters of %s woken exactly" % fld)
+                ok = not any(isinstance(y, (ast.Break, ast.Return)) for y in ast.walk(lp))
+                chk.ob(rule, "%s.%s does not stop waking waiters of %s early" % (cls.name, m.name, fld), ok, m.where(lp), construct=m.ident,
+                       text="waiter loop of %s left early" % fld)
+                resets = [x for x in cfg.nodes if x.kind == "stmt" and isinstance(x.ast, ast.Assign) and any(src(t_) == fld for t_ in x.ast.targets) and src(x.ast.value) in ("[]", "list()")] + \
+                    [x for x, c in cfg.calls_named("clear") if src(c.func.value) == fld]
+                for r in resets:
+                    after = r.id in cfg.reachable([head.id], include_start=False) and head.id not in cfg.reachable([r.id], include_start=False)
+                    chk.ob(rule, "%s.%s forgets the waiters of %s only after it woke them" % (cls.name, m.name, fld), after, m.where(r.ast), construct=m.ident,
+                           text="waiters of %s forgotten before woken" % fld)
+        chk.ob(rule, "waiters filed in %s.%s (by %s) have a resolver" % (cls.name, fld[5:], ", ".join(x.name for x in makers)), bool(resolvers),
+               makers[0].where(), construct=makers[0].ident, text="waiters of %s never resolved" % fld)
+    return len(fields), n_res
